@@ -214,7 +214,9 @@ func init() {
 	externs["strings.Replace"] = strFn("strings.Replace", 4)
 	externs["strings.Index"] = func(e *Exec, st *BState, x *ssa.Call, args []SV) SV {
 		s, sub := scal(args[0]), scal(args[1])
-		return &Scalar{T: app(SInt, "str.indexof", s, sub, intLit(0)), Ty: x.Type()}
+		r := ufun("ext.strings.Index", []string{SStr, SStr}, SInt, s, sub)
+		e.assume(and(le(intLit(-1), r), le(r, e.strLen(s))))
+		return &Scalar{T: r, Ty: x.Type()}
 	}
 	externs["strings.Repeat"] = func(e *Exec, st *BState, x *ssa.Call, args []SV) SV {
 		s, n := scal(args[0]), scal(args[1])
@@ -257,7 +259,26 @@ func init() {
 			return e.freshSV(x.Type(), "ext."+name, st.reach, false)
 		}
 	}
-	for _, n := range []string{"strconv.ParseInt", "strconv.ParseFloat", "time.Parse", "time.Now", "log.Printf",
+	externs["strconv.ParseInt"] = func(e *Exec, st *BState, x *ssa.Call, args []SV) SV {
+		s := scal(args[0])
+		tup := x.Type().(*types.Tuple)
+		ok := ufun("ext.strconv.ParseInt.ok", []string{SStr}, SBool, s)
+		v := ufun("ext.strconv.ParseInt.val", []string{SStr}, SInt, s)
+		e.assume(and(le(bigLit("MIN64"), v), le(v, bigLit("MAX64"))))
+		er := e.freshSV(tup.At(1).Type(), "parse.err", st.reach, false).(*IfaceV)
+		e.assume(eq(eq(er.Tag, intLit(0)), ok))
+		return &TupleV{Elems: []SV{&Scalar{T: v, Ty: tup.At(0).Type()}, er}}
+	}
+	externs["strconv.ParseFloat"] = func(e *Exec, st *BState, x *ssa.Call, args []SV) SV {
+		s := scal(args[0])
+		tup := x.Type().(*types.Tuple)
+		ok := ufun("ext.strconv.ParseFloat.ok", []string{SStr}, SBool, s)
+		v := ufun("ext.strconv.ParseFloat.val", []string{SStr}, SF64, s)
+		er := e.freshSV(tup.At(1).Type(), "parse.err", st.reach, false).(*IfaceV)
+		e.assume(eq(eq(er.Tag, intLit(0)), ok))
+		return &TupleV{Elems: []SV{&Scalar{T: v, Ty: tup.At(0).Type()}, er}}
+	}
+	for _, n := range []string{"time.Parse", "time.Now", "log.Printf",
 		"fmt.Sprint", "(time.Time).Format", "(time.Duration).String", "time.ParseDuration"} {
 		pure(n)
 	}
